@@ -412,3 +412,646 @@ Section Graph.
           intros y. rewrite root_last_In by assumption. rewrite ML. tauto.
   Qed.
 End Graph.
+
+(* ------------------------------------------------------------------ Part C *)
+Lemma flat_map_flat_map {A B C} (f : B -> list C) (h : A -> list B) l :
+  flat_map f (flat_map h l) = flat_map (fun x => flat_map f (h x)) l.
+Proof. induction l as [|x l IH]; cbn; [reflexivity|]. rewrite flat_map_app, IH. reflexivity. Qed.
+
+Lemma tree_ind2 (P : tree -> Prop) :
+  (forall x, P (Leaf x)) -> (forall ts, Forall P ts -> P (Seq ts)) -> (forall d, P (OfDecl d)) ->
+  forall t, P t.
+Proof.
+  intros HL HS HD. fix IH 1. intros [x|ts|d]; [apply HL| |apply HD].
+  apply HS. induction ts as [|t ts IHts]; constructor; [apply IH|apply IHts].
+Qed.
+
+Lemma list_max_ge l x : In x l -> x <= list_max l.
+Proof.
+  induction l as [|y l IH]; [intros []|]. change (list_max (y :: l)) with (Nat.max y (list_max l)).
+  intros [->|H]; [lia|]. specialize (IH H). lia.
+Qed.
+
+Lemma NoDup_app2 (a b : list node) :
+  NoDup a -> NoDup b -> (forall x, In x a -> ~ In x b) -> NoDup (a ++ b).
+Proof.
+  induction a as [|x a IH]; cbn; intros Ha Hb H; [assumption|].
+  inversion Ha; subst. constructor.
+  - rewrite in_app_iff. intros [F|F]; [tauto|]. apply (H x); auto.
+  - apply IH; auto.
+Qed.
+
+Section World.
+  Variable g : graph.
+  Variable ifs : list node.
+
+  Lemma interfaces_f_deq fuel : forall x, deq (interfaces_f g ifs fuel x) (leaves_f g ifs fuel x).
+  Proof.
+    induction fuel as [|f IH]; intros x; cbn [interfaces_f leaves_f];
+      destruct (is_iface ifs x); try apply deq_refl.
+    eapply deq_trans; [apply deq_dedupe|]. apply deq_flat_map. intros; apply IH.
+  Qed.
+
+  Lemma interfaces_deq x : deq (interfaces g ifs x) (leaves g ifs x).
+  Proof. apply interfaces_f_deq. Qed.
+
+  Lemma interfaces_f_iface fuel : forall x i, In i (interfaces_f g ifs fuel x) -> is_iface ifs i = true.
+  Proof.
+    induction fuel as [|f IH]; intros x i; cbn [interfaces_f]; destruct (is_iface ifs x) eqn:E.
+    - intros [<-|[]]. assumption.
+    - intros [].
+    - intros [<-|[]]. assumption.
+    - rewrite dedupe_In, in_flat_map. intros [b [_ H]]. eapply IH. eassumption.
+  Qed.
+
+  Lemma interfaces_of_iface x : is_iface ifs x = true -> interfaces g ifs x = [x].
+  Proof. intros H. unfold interfaces. cbn [interfaces_f]. rewrite H. reflexivity. Qed.
+
+  Lemma decl_interfaces_iface d i : In i (decl_interfaces g ifs d) -> is_iface ifs i = true.
+  Proof.
+    unfold decl_interfaces. rewrite dedupe_In, in_flat_map. intros [b [_ H]].
+    eapply interfaces_f_iface. exact H.
+  Qed.
+
+  Lemma decl_interfaces_NoDup d : NoDup (decl_interfaces g ifs d).
+  Proof. apply dedupe_NoDup. Qed.
+
+  Lemma flat_map_interfaces_id l :
+    (forall i, In i l -> is_iface ifs i = true) -> flat_map (interfaces g ifs) l = l.
+  Proof.
+    induction l as [|x l IH]; intros H; cbn [flat_map]; [reflexivity|].
+    rewrite interfaces_of_iface by (apply H; left; reflexivity). cbn [app]. f_equal. apply IH.
+    intros; apply H; right; assumption.
+  Qed.
+
+  (* a declaration whose bases are distinct interfaces iterates as its bases *)
+  Lemma iter_of_ifaces l : NoDup l -> (forall i, In i l -> is_iface ifs i = true) -> iter g ifs l = l.
+  Proof.
+    intros ND H. unfold iter, decl_interfaces. rewrite flat_map_interfaces_id by assumption.
+    apply dedupe_id. assumption.
+  Qed.
+
+  Lemma normalize_deq t :
+    deq (flat_map (interfaces g ifs) (normalize g ifs t)) (tree_leaves g ifs t).
+  Proof.
+    induction t as [x|ts IH|d] using tree_ind2.
+    - cbn. rewrite app_nil_r. apply interfaces_deq.
+    - cbn [normalize tree_leaves]. rewrite flat_map_flat_map. apply deq_flat_map.
+      intros t Ht. rewrite Forall_forall in IH. apply IH. assumption.
+    - cbn [normalize tree_leaves]. rewrite flat_map_interfaces_id by apply decl_interfaces_iface.
+      unfold decl_interfaces. eapply deq_trans; [apply deq_dedupe|].
+      apply deq_flat_map. intros; apply interfaces_deq.
+  Qed.
+
+  Lemma iter_exact_lemma args :
+    iter g ifs (mk_decl g ifs args) = dedupe (flat_map (tree_leaves g ifs) args) /\
+    NoDup (iter g ifs (mk_decl g ifs args)) /\
+    (forall i, In i (iter g ifs (mk_decl g ifs args)) -> is_iface ifs i = true).
+  Proof.
+    split; [|split; [apply decl_interfaces_NoDup|apply decl_interfaces_iface]].
+    unfold iter, decl_interfaces, mk_decl. rewrite flat_map_flat_map.
+    apply (deq_flat_map _ _ args (fun t _ => normalize_deq t) []).
+  Qed.
+
+  (* ---------------- with well-formedness *)
+  Hypothesis WF : wf g ifs = true.
+
+  Lemma wf_bases : forall x b, In b (bases g x) -> b < x.
+  Proof.
+    unfold wf in WF. apply andb_true_iff in WF. destruct WF as [W _]. clear WF.
+    induction g as [|[y bs] g' IH]; intros x b; cbn; [tauto|].
+    cbn in W. apply andb_true_iff in W. destruct W as [W1 W2].
+    destruct (Nat.eqb x y) eqn:E.
+    - apply Nat.eqb_eq in E. subst y. intros H. rewrite forallb_forall in W1.
+      apply Nat.ltb_lt. apply W1. assumption.
+    - apply IH. assumption.
+  Qed.
+
+  Lemma wf_ifs i : is_iface ifs i = true -> In i (map fst g).
+  Proof.
+    unfold wf in WF. apply andb_true_iff in WF. destruct WF as [_ W].
+    rewrite forallb_forall in W. intros H. apply mem_In in H. apply mem_In. apply W. assumption.
+  Qed.
+
+  Lemma interfaces_f_In fuel : forall x i, x < fuel ->
+    (In i (interfaces_f g ifs fuel x) <-> first_iface g ifs x i).
+  Proof.
+    induction fuel as [|f IH]; intros x i Hx; [lia|].
+    cbn [interfaces_f]. destruct (is_iface ifs x) eqn:E.
+    - split.
+      + intros [<-|[]]. constructor. assumption.
+      + intros H. inversion H; subst; [left; reflexivity|congruence].
+    - rewrite dedupe_In, in_flat_map. split.
+      + intros [b [Hb H]]. econstructor; [assumption|eassumption|].
+        apply IH; [|assumption]. apply wf_bases in Hb. lia.
+      + intros H. inversion H; subst; [congruence|]. exists b. split; [assumption|].
+        apply IH; [|assumption]. apply wf_bases in H1. lia.
+  Qed.
+
+  Lemma decl_interfaces_In d i :
+    In i (decl_interfaces g ifs d) <-> exists b, In b d /\ first_iface g ifs b i.
+  Proof.
+    unfold decl_interfaces. rewrite dedupe_In, in_flat_map. split; intros [b [Hb H]]; exists b; split; auto.
+    - apply (interfaces_f_In (S b)); [lia|assumption].
+    - apply (interfaces_f_In (S b)); [lia|assumption].
+  Qed.
+
+  Lemma first_iface_reach x i : first_iface g ifs x i -> reach g x i /\ is_iface ifs i = true.
+  Proof.
+    induction 1 as [x H|x b i E Hb H [IH1 IH2]]; [split; [constructor|assumption]|].
+    split; [econstructor; eassumption|assumption].
+  Qed.
+
+  Lemma reach_first_iface x y : reach g x y -> is_iface ifs y = true ->
+    exists i, first_iface g ifs x i /\ reach g i y.
+  Proof.
+    induction 1 as [x|x b y Hb H IH]; intros Hy.
+    - exists x. split; constructor. assumption.
+    - destruct (is_iface ifs x) eqn:E.
+      + exists x. split; [constructor; assumption|econstructor; eassumption].
+      + destruct (IH Hy) as [i [Hi Hr]]. exists i. split; [econstructor; eassumption|assumption].
+  Qed.
+
+  (* ---------------- Part D: the declaration as a new node on top of the graph *)
+  Section Decl.
+    Variable d : decl.
+    Let n := fresh_id g d.
+    Let G : graph := (n, d) :: g.
+
+    Lemma fresh_gt_keys x : In x (map fst g) -> x < n.
+    Proof. intros H. apply list_max_ge in H. unfold n, fresh_id. lia. Qed.
+
+    Lemma fresh_gt_d b : In b d -> b < n.
+    Proof. intros H. apply list_max_ge in H. unfold n, fresh_id. lia. Qed.
+
+    Lemma bases_G x : bases G x = if Nat.eqb x n then d else bases g x.
+    Proof. reflexivity. Qed.
+
+    Lemma bases_nonkey x : In x (map fst g) \/ bases g x = [].
+    Proof.
+      clear WF. induction g as [|[y bs] g' IH]; cbn; [tauto|].
+      destruct (Nat.eqb x y) eqn:E; [apply Nat.eqb_eq in E; auto|]. destruct IH; auto.
+    Qed.
+
+    Lemma wfb_G : forall x b, In b (bases G x) -> b < x.
+    Proof.
+      intros x b. rewrite bases_G. destruct (Nat.eqb x n) eqn:E.
+      - apply Nat.eqb_eq in E. subst x. apply fresh_gt_d.
+      - apply wf_bases.
+    Qed.
+
+    Lemma reach_G_g x y : x < n -> (reach G x y <-> reach g x y).
+    Proof.
+      intros Hx. split.
+      - intros H. induction H as [x|x b y Hb H IH]; [constructor|].
+        rewrite bases_G in Hb. destruct (Nat.eqb x n) eqn:E; [apply Nat.eqb_eq in E; lia|].
+        econstructor; [eassumption|]. apply IH. apply wf_bases in Hb. lia.
+      - intros H. induction H as [x|x b y Hb H IH]; [constructor|].
+        apply reach_step with b.
+        + rewrite bases_G. destruct (Nat.eqb x n) eqn:E; [apply Nat.eqb_eq in E; lia|assumption].
+        + apply IH. apply wf_bases in Hb. lia.
+    Qed.
+
+    Lemma reach_decl y : reach G n y <-> y = n \/ exists b, In b d /\ reach g b y.
+    Proof.
+      rewrite reach_inv, bases_G, Nat.eqb_refl. split.
+      - intros [<-|[b [Hb H]]]; [tauto|]. right. exists b. split; [assumption|].
+        apply reach_G_g; [apply fresh_gt_d|]; assumption.
+      - intros [->|[b [Hb H]]]; [tauto|]. right. exists b. split; [assumption|].
+        apply reach_G_g; [apply fresh_gt_d|]; assumption.
+    Qed.
+
+    Lemma decl_sro_In y :
+      In y (decl_sro g d) <-> y = root \/ y = n \/ exists b, In b d /\ reach g b y.
+    Proof.
+      unfold decl_sro. fold n. fold G.
+      destruct (fresh_sro_spec G wfb_G (S n) n (Nat.lt_succ_diag_r n)) as [M _].
+      rewrite M, reach_decl. tauto.
+    Qed.
+
+    Lemma decl_sro_NoDup : NoDup (decl_sro g d).
+    Proof.
+      unfold decl_sro. fold n. fold G.
+      apply (fresh_sro_spec G wfb_G (S n) n (Nat.lt_succ_diag_r n)).
+    Qed.
+
+    Lemma fresh_not_iface : is_iface ifs n = false.
+    Proof.
+      destruct (is_iface ifs n) eqn:E; [|reflexivity].
+      apply wf_ifs, fresh_gt_keys in E. lia.
+    Qed.
+
+    Lemma contains_iff_lemma x : contains g ifs d x = true <-> In x (iter g ifs d).
+    Proof.
+      unfold contains, iter. fold n. split.
+      { intros H. apply andb_true_iff in H. destruct H as [_ H]. apply mem_In. exact H. }
+      intros H. apply andb_true_iff. split; [|apply mem_In; exact H]. apply andb_true_iff.
+      apply decl_interfaces_In in H. destruct H as [b [Hb H]].
+      apply first_iface_reach in H. destruct H as [H _]. split.
+      - apply mem_In, decl_sro_In. right. right. eauto.
+      - apply negb_true_iff, Nat.eqb_neq. apply (reach_le g wf_bases) in H. apply fresh_gt_d in Hb. lia.
+    Qed.
+
+    Lemma flattened_members_lemma y :
+      In y (flattened g ifs d) <->
+      is_iface ifs y = true /\ (y = root \/ exists i, In i (iter g ifs d) /\ reach g i y).
+    Proof.
+      unfold flattened. rewrite filter_In, decl_sro_In. split.
+      - intros [[->|[->|[b [Hb H]]]] Hy]; split; try assumption; [left; reflexivity| |].
+        + rewrite fresh_not_iface in Hy. discriminate.
+        + destruct (reach_first_iface b y H Hy) as [i [Hi Hr]]. right. exists i. split; [|assumption].
+          apply decl_interfaces_In. eauto.
+      - intros [Hy [->|[i [Hi Hr]]]]; split; try assumption; [left; reflexivity|].
+        apply decl_interfaces_In in Hi. destruct Hi as [b [Hb Hi]]. apply first_iface_reach in Hi.
+        right. right. exists b. split; [assumption|]. eapply reach_trans; [apply Hi|assumption].
+    Qed.
+
+    Lemma flattened_NoDup : NoDup (flattened g ifs d).
+    Proof. apply NoDup_filter, decl_sro_NoDup. Qed.
+  End Decl.
+
+  Lemma is_or_extends_iff x y : is_or_extends g x y = true <-> implies g x y.
+  Proof.
+    unfold is_or_extends, sro, implies. rewrite mem_In.
+    apply (fresh_sro_spec g wf_bases (S x) x (Nat.lt_succ_diag_r x)).
+  Qed.
+
+  Lemma extends_strict_iff x y : extends_strict g x y = true <-> extends g x y.
+  Proof.
+    unfold extends_strict, extends. rewrite andb_true_iff, is_or_extends_iff, negb_true_iff, Nat.eqb_neq. tauto.
+  Qed.
+End World.
+
+(* ------------------------------------------------------------------ Part E: - and + *)
+Lemma interleave_In l f k : interleave l f k -> forall x, In x l <-> In x f \/ In x k.
+Proof. induction 1; intros y; cbn; [tauto| |]; rewrite IHinterleave; tauto. Qed.
+
+Lemma interleave_NoDup l f k : interleave l f k -> NoDup l ->
+  NoDup f /\ NoDup k /\ (forall x, In x f -> ~ In x k).
+Proof.
+  induction 1 as [|x l f k H IH|x l f k H IH]; intros ND.
+  - repeat split; try constructor. intros x [].
+  - inversion ND as [|? ? Hx ND']; subst. destruct (IH ND') as [Nf [Nk D]].
+    pose proof (interleave_In _ _ _ H) as M. repeat split; [|assumption|].
+    + constructor; [|assumption]. intros F. apply Hx. apply M. tauto.
+    + intros y [<-|Hy]; [|apply D; assumption]. intros F. apply Hx. apply M. tauto.
+  - inversion ND as [|? ? Hx ND']; subst. destruct (IH ND') as [Nf [Nk D]].
+    pose proof (interleave_In _ _ _ H) as M. repeat split; [assumption| |].
+    + constructor; [|assumption]. intros F. apply Hx. apply M. tauto.
+    + intros y Hy [<-|F]; [|apply (D y); assumption]. apply Hx. apply M. tauto.
+Qed.
+
+Lemma interleave_filter (P : node -> bool) l f k : interleave l f k -> NoDup l ->
+  (forall x, In x l -> (In x f <-> P x = true)) ->
+  f = filter P l /\ k = filter (fun x => negb (P x)) l.
+Proof.
+  induction 1 as [|x l f k H IH|x l f k H IH]; intros ND HP.
+  - split; reflexivity.
+  - inversion ND as [|? ? Hx ND']; subst. pose proof (interleave_In _ _ _ H) as M.
+    assert (Px : P x = true) by (apply HP; left; reflexivity).
+    destruct IH as [-> ->]; [assumption| |cbn; rewrite Px; cbn; split; reflexivity].
+    intros y Hy. rewrite <- HP by (right; assumption). cbn. split; [tauto|].
+    intros [<-|?]; [tauto|assumption].
+  - inversion ND as [|? ? Hx ND']; subst. pose proof (interleave_In _ _ _ H) as M.
+    assert (Px : P x = false).
+    { destruct (P x) eqn:E; [|reflexivity]. exfalso. apply Hx. apply M. left. apply HP; [left; reflexivity|assumption]. }
+    destruct IH as [-> ->]; [assumption| |cbn; rewrite Px; cbn; split; reflexivity].
+    intros y Hy. apply HP. right. assumption.
+Qed.
+
+Section Algebra.
+  Variable g : graph.
+  Variable ifs : list node.
+
+  Lemma sub_iface a b i : In i (sub g ifs a b) -> is_iface ifs i = true.
+  Proof. unfold sub. rewrite filter_In. intros [H _]. eapply decl_interfaces_iface. exact H. Qed.
+
+  Lemma sub_NoDup a b : NoDup (sub g ifs a b).
+  Proof. apply NoDup_filter, decl_interfaces_NoDup. Qed.
+
+  Lemma sub_spec_lemma a b :
+    iter g ifs (sub g ifs a b) =
+    filter (fun i => negb (existsb (fun j => is_or_extends g i j) (iter g ifs b))) (iter g ifs a).
+  Proof. rewrite iter_of_ifaces; [reflexivity|apply sub_NoDup|apply sub_iface]. Qed.
+
+  (* the two output lists of the loop of __add__, on the new interfaces only *)
+  Fixpoint place (res l : list node) : list node * list node :=
+    match l with
+    | [] => ([], [])
+    | i :: t =>
+        if existsb (fun x => extends_strict g i x) res
+        then let '(f, k) := place res t in (i :: f, k)
+        else let '(f, k) := place (res ++ [i]) t in (f, i :: k)
+    end.
+
+  Lemma add_loop_place l : forall bf res seen,
+    add_loop g bf res seen l =
+    let '(f, k) := place res (dedupe_acc seen l) in (bf ++ f, res ++ k).
+  Proof.
+    induction l as [|i t IH]; intros bf res seen; cbn [add_loop dedupe_acc].
+    - cbn. rewrite !app_nil_r. reflexivity.
+    - destruct (mem i seen); [apply IH|]. cbn [place].
+      destruct (existsb (fun x => extends_strict g i x) res).
+      + rewrite IH. destruct (place res (dedupe_acc (i :: seen) t)) as [f k].
+        rewrite <- app_assoc. reflexivity.
+      + rewrite IH. destruct (place (res ++ [i]) (dedupe_acc (i :: seen) t)) as [f k].
+        rewrite <- app_assoc. reflexivity.
+  Qed.
+
+  Lemma place_interleave l : forall res, interleave l (fst (place res l)) (snd (place res l)).
+  Proof.
+    induction l as [|i t IH]; intros res; cbn [place]; [constructor|].
+    destruct (existsb (fun x => extends_strict g i x) res).
+    - specialize (IH res). destruct (place res t) as [f k]. cbn in *. constructor. assumption.
+    - specialize (IH (res ++ [i])). destruct (place (res ++ [i]) t) as [f k]. cbn in *. constructor. assumption.
+  Qed.
+
+  Lemma place_rule l : forall res, NoDup l -> forall p x q, l = p ++ x :: q ->
+    (In x (fst (place res l)) <->
+     exists y, (In y res \/ (In y p /\ In y (snd (place res l)))) /\ extends_strict g x y = true).
+  Proof.
+    induction l as [|i t IH]; intros res ND p x q E; [destruct p; discriminate|].
+    inversion ND as [|? ? Hi ND']; subst.
+    cbn [place]. destruct (existsb (fun x0 => extends_strict g i x0) res) eqn:EX.
+    - pose proof (place_interleave t res) as IL. specialize (IH res ND').
+      destruct (place res t) as [f k]. cbn [fst snd] in *.
+      destruct p as [|i' p']; cbn in E; injection E as <- ->.
+      + split; [|intros _; left; reflexivity]. intros _.
+        apply existsb_exists in EX. destruct EX as [y [Hy Hs]]. exists y. tauto.
+      + specialize (IH p' x q eq_refl).
+        assert (Nx : i <> x). { intros ->. apply Hi. apply in_app_iff. right. left. reflexivity. }
+        assert (Nk : ~ In i k). { intros F. apply Hi. apply (interleave_In _ _ _ IL). tauto. }
+        cbn [In]. rewrite IH. split.
+        * intros [?|[y [[Hy|[Hy Hk]] Hs]]]; [congruence| |]; exists y; cbn [In]; tauto.
+        * intros [y [[Hy|[[<-|Hy] Hk]] Hs]]; [| tauto |]; right; exists y; tauto.
+    - pose proof (place_interleave t (res ++ [i])) as IL. specialize (IH (res ++ [i]) ND').
+      destruct (place (res ++ [i]) t) as [f k]. cbn [fst snd] in *.
+      destruct p as [|i' p']; cbn in E; injection E as <- ->.
+      + split.
+        * intros F. exfalso. apply Hi. apply (interleave_In _ _ _ IL). tauto.
+        * intros [y [[Hy|[[] _]] Hs]]. exfalso.
+          assert (existsb (fun x0 => extends_strict g i x0) res = true) by (apply existsb_exists; eauto).
+          congruence.
+      + specialize (IH p' x q eq_refl). rewrite IH. split.
+        * intros [y [[Hy|[Hy Hk]] Hs]]; exists y; (split; [|assumption]).
+          -- apply in_app_iff in Hy. destruct Hy as [Hy|[<-|[]]]; [tauto|]. right. split; left; reflexivity.
+          -- right. split; right; assumption.
+        * intros [y [[Hy|[Hp Hk]] Hs]]; exists y; (split; [|assumption]).
+          -- left. apply in_app_iff. tauto.
+          -- destruct Hp as [<-|Hp]; [left; apply in_app_iff; right; left; reflexivity|].
+             destruct Hk as [<-|Hk]; [left; apply in_app_iff; right; left; reflexivity|].
+             right. tauto.
+  Qed.
+
+  Definition new_of (a b : decl) : list node :=
+    filter (fun i => negb (mem i (iter g ifs a))) (iter g ifs b).
+
+  Lemma new_of_In a b x : In x (new_of a b) <-> In x (iter g ifs b) /\ ~ In x (iter g ifs a).
+  Proof. unfold new_of. rewrite filter_In, negb_true_iff, mem_false. tauto. Qed.
+
+  Lemma new_of_NoDup a b : NoDup (new_of a b).
+  Proof. apply NoDup_filter, decl_interfaces_NoDup. Qed.
+
+  Lemma add_shape a b :
+    let A := iter g ifs a in
+    let f := fst (place A (new_of a b)) in
+    let k := snd (place A (new_of a b)) in
+    add g ifs a b = f ++ A ++ k /\ iter g ifs (add g ifs a b) = f ++ A ++ k /\
+    interleave (new_of a b) f k /\ NoDup (f ++ A ++ k).
+  Proof.
+    intros A f k.
+    assert (E : add g ifs a b = f ++ A ++ k).
+    { unfold f, k, A, add, new_of, iter. cbv zeta. rewrite add_loop_place.
+      rewrite dedupe_acc_filter by apply decl_interfaces_NoDup.
+      destruct (place _ _) as [f' k']. reflexivity. }
+    pose proof (place_interleave (new_of a b) A) as IL. fold f in IL. fold k in IL.
+    pose proof (interleave_In _ _ _ IL) as M.
+    destruct (interleave_NoDup _ _ _ IL (new_of_NoDup a b)) as [Nf [Nk D]].
+    assert (ND : NoDup (f ++ A ++ k)).
+    { apply NoDup_app2; [assumption| |].
+      - apply NoDup_app2; [apply decl_interfaces_NoDup|assumption|].
+        intros x Hx Hk. assert (In x (new_of a b)) by (apply M; tauto).
+        apply new_of_In in H. tauto.
+      - intros x Hx. rewrite in_app_iff. intros [F|F]; [|apply (D x); assumption].
+        assert (In x (new_of a b)) by (apply M; tauto). apply new_of_In in H. tauto. }
+    repeat split; try assumption.
+    rewrite E. apply iter_of_ifaces; [assumption|].
+    intros i. rewrite !in_app_iff. intros [H|[H|H]].
+    - assert (In i (new_of a b)) by (apply M; tauto). apply new_of_In in H0.
+      eapply decl_interfaces_iface. apply H0.
+    - eapply decl_interfaces_iface. exact H.
+    - assert (In i (new_of a b)) by (apply M; tauto). apply new_of_In in H0.
+      eapply decl_interfaces_iface. apply H0.
+  Qed.
+
+  Lemma add_members_lemma a b :
+    NoDup (iter g ifs (add g ifs a b)) /\
+    (forall x, In x (iter g ifs (add g ifs a b)) <-> In x (iter g ifs a) \/ In x (iter g ifs b)).
+  Proof.
+    destruct (add_shape a b) as [_ [E [IL ND]]]. rewrite E. split; [assumption|].
+    intros x. rewrite !in_app_iff. pose proof (interleave_In _ _ _ IL x) as M.
+    rewrite new_of_In in M. destruct (in_dec Nat.eq_dec x (iter g ifs a)); tauto.
+  Qed.
+
+  Hypothesis WF : wf g ifs = true.
+
+  Lemma sub_members_lemma a b x :
+    In x (iter g ifs (sub g ifs a b)) <->
+    In x (iter g ifs a) /\ ~ exists j, In j (iter g ifs b) /\ implies g x j.
+  Proof.
+    rewrite sub_spec_lemma, filter_In, negb_true_iff.
+    destruct (existsb (fun j => is_or_extends g x j) (iter g ifs b)) eqn:E.
+    - apply existsb_exists in E. destruct E as [j [Hj H]]. apply (is_or_extends_iff g ifs WF) in H.
+      split; [intros [_ F]; discriminate|]. intros [_ F]. exfalso. apply F. eauto.
+    - split; [|tauto]. intros [H _]. split; [assumption|]. intros [j [Hj F]].
+      apply (is_or_extends_iff g ifs WF) in F.
+      assert (existsb (fun j => is_or_extends g x j) (iter g ifs b) = true) by (apply existsb_exists; eauto).
+      congruence.
+  Qed.
+
+  Lemma add_spec_lemma a b :
+    exists front back,
+      iter g ifs (add g ifs a b) = front ++ iter g ifs a ++ back /\
+      interleave (new_of a b) front back /\
+      (forall p x q, new_of a b = p ++ x :: q ->
+         (In x front <->
+          exists y, (In y (iter g ifs a) \/ (In y p /\ In y back)) /\ extends g x y)).
+  Proof.
+    destruct (add_shape a b) as [_ [E [IL _]]].
+    exists (fst (place (iter g ifs a) (new_of a b))), (snd (place (iter g ifs a) (new_of a b))).
+    split; [assumption|]. split; [assumption|].
+    intros p x q Hn. rewrite (place_rule _ _ (new_of_NoDup a b) p x q Hn).
+    split; intros [y [H1 H2]]; exists y; (split; [assumption|]); apply (extends_strict_iff g ifs WF); assumption.
+  Qed.
+
+  Lemma add_in_front_lemma a b front back :
+    iter g ifs (add g ifs a b) = front ++ iter g ifs a ++ back ->
+    interleave (new_of a b) front back ->
+    (forall p x q, new_of a b = p ++ x :: q ->
+       (In x front <-> exists y, (In y (iter g ifs a) \/ (In y p /\ In y back)) /\ extends g x y)) ->
+    (forall x y, In x (new_of a b) -> In y (iter g ifs a) -> extends g x y -> In x front) /\
+    (forall x y, In x back -> In y (iter g ifs a) -> ~ extends g x y).
+  Proof.
+    intros _ IL R. pose proof (interleave_In _ _ _ IL) as M.
+    destruct (interleave_NoDup _ _ _ IL (new_of_NoDup a b)) as [_ [_ D]].
+    assert (K : forall x y, In x (new_of a b) -> In y (iter g ifs a) -> extends g x y -> In x front).
+    { intros x y Hx Hy He. destruct (in_split _ _ Hx) as [p [q Hn]]. apply (R p x q Hn). exists y. tauto. }
+    split; [assumption|]. intros x y Hx Hy He. apply (D x); [|assumption].
+    apply (K x y); [apply M; tauto|assumption|assumption].
+  Qed.
+
+  Definition ext_of_A (a : decl) (x : node) : bool :=
+    existsb (fun y => extends_strict g x y) (iter g ifs a).
+
+  Lemma add_as_worded_lemma a b :
+    (forall x y, In x (new_of a b) -> In y (new_of a b) -> ~ extends g x y) ->
+    iter g ifs (add g ifs a b) =
+    filter (ext_of_A a) (new_of a b) ++ iter g ifs a ++ filter (fun x => negb (ext_of_A a x)) (new_of a b).
+  Proof.
+    intros Hno. destruct (add_spec_lemma a b) as [front [back [E [IL R]]]]. rewrite E.
+    pose proof (interleave_In _ _ _ IL) as M.
+    destruct (interleave_filter (ext_of_A a) _ _ _ IL (new_of_NoDup a b)) as [-> ->]; [|reflexivity].
+    intros x Hx. destruct (in_split _ _ Hx) as [p [q Hn]]. rewrite (R p x q Hn).
+    unfold ext_of_A. rewrite existsb_exists. split.
+    - intros [y [[Hy|[Hp Hk]] He]].
+      + exists y. split; [assumption|]. apply (extends_strict_iff g ifs WF). assumption.
+      + exfalso. apply (Hno x y); [assumption| |assumption]. apply M. tauto.
+    - intros [y [Hy He]]. exists y. split; [tauto|]. apply (extends_strict_iff g ifs WF). assumption.
+  Qed.
+
+  (* ---------------------------------------------------------------- Part F: instances *)
+  Lemma dpb_directly c args :
+    directly_provided_by (Some (directly_provides g ifs c args)) = strip_cls g c (mk_decl g ifs args).
+  Proof. unfold directly_provided_by, directly_provides. apply removelast_last. Qed.
+
+  Lemma iface_in_iter l x : In x l -> is_iface ifs x = true -> In x (iter g ifs l).
+  Proof.
+    intros H Hx. unfold iter, decl_interfaces. rewrite dedupe_In, in_flat_map. exists x.
+    split; [assumption|]. rewrite interfaces_of_iface by assumption. left. reflexivity.
+  Qed.
+
+  Lemma also_provides_lemma c p args :
+    match also_provides g ifs c p args with
+    | Some bs =>
+        iter g ifs (directly_provided_by (Some bs)) =
+        iter g ifs (strip_cls g c (iter g ifs (directly_provided_by p) ++ mk_decl g ifs args)) /\
+        (forall x, In x (iter g ifs (directly_provided_by p)) -> is_or_extends g c x = false ->
+                   In x (iter g ifs (directly_provided_by (Some bs))))
+    | None => False
+    end.
+  Proof.
+    unfold also_provides. rewrite dpb_directly.
+    assert (E : mk_decl g ifs (OfDecl (directly_provided_by p) :: args) =
+                iter g ifs (directly_provided_by p) ++ mk_decl g ifs args) by reflexivity.
+    rewrite E. split; [reflexivity|].
+    intros x Hx Hc. apply iface_in_iter; [|eapply decl_interfaces_iface; exact Hx].
+    unfold strip_cls. apply filter_In. split; [apply in_app_iff; tauto|]. rewrite Hc. reflexivity.
+  Qed.
+
+  Lemma no_longer_provides_exact_lemma c p i : is_iface ifs i = true ->
+    iter g ifs (directly_provided_by (fst (no_longer_provides g ifs c p i))) =
+    filter (fun x => negb (is_or_extends g c x))
+           (filter (fun x => negb (is_or_extends g x i)) (iter g ifs (directly_provided_by p))).
+  Proof.
+    intros Hi. unfold no_longer_provides. cbn [fst]. rewrite dpb_directly.
+    assert (E : mk_decl g ifs [OfDecl (sub g ifs (directly_provided_by p) [i])] =
+                sub g ifs (directly_provided_by p) [i]).
+    { unfold mk_decl. cbn [flat_map normalize]. rewrite app_nil_r.
+      apply iter_of_ifaces; [apply sub_NoDup|apply sub_iface]. }
+    rewrite E.
+    assert (Ei : decl_interfaces g ifs [i] = [i]).
+    { unfold decl_interfaces. cbn [flat_map]. rewrite interfaces_of_iface by assumption. reflexivity. }
+    rewrite iter_of_ifaces.
+    - unfold strip_cls, sub. rewrite Ei. f_equal. apply filter_ext. intros x. cbn. rewrite orb_false_r. reflexivity.
+    - apply NoDup_filter, sub_NoDup.
+    - intros x Hx. apply filter_In in Hx. eapply sub_iface. apply Hx.
+  Qed.
+
+  Lemma no_longer_provides_members_lemma c p i : is_iface ifs i = true ->
+    (forall x, In x (iter g ifs (directly_provided_by (fst (no_longer_provides g ifs c p i)))) <->
+               In x (iter g ifs (directly_provided_by p)) /\ ~ implies g x i /\ ~ implies g c x) /\
+    (snd (no_longer_provides g ifs c p i) = true <-> implies g c i).
+  Proof.
+    intros Hi. split.
+    - intros x. rewrite no_longer_provides_exact_lemma by assumption.
+      rewrite !filter_In, !negb_true_iff.
+      rewrite <- !(is_or_extends_iff g ifs WF).
+      destruct (is_or_extends g x i), (is_or_extends g c x); intuition congruence.
+    - unfold no_longer_provides. cbn [snd]. rewrite mem_In, (decl_sro_In g ifs WF).
+      unfold implies. split.
+      + intros [?|[E|[b [Hb H]]]]; [tauto| |].
+        * exfalso. rewrite E in Hi. rewrite (fresh_not_iface g ifs WF) in Hi. discriminate.
+        * unfold directly_provides in Hb. apply in_app_iff in Hb. destruct Hb as [Hb|[<-|[]]]; [|tauto].
+          exfalso. rewrite <- dpb_directly in Hb.
+          assert (Hx : In b (iter g ifs (directly_provided_by (fst (no_longer_provides g ifs c p i))))).
+          { unfold no_longer_provides. cbn [fst]. apply iface_in_iter; [assumption|].
+            rewrite dpb_directly in Hb. unfold strip_cls in Hb. apply filter_In in Hb. destruct Hb as [Hb _].
+            unfold mk_decl in Hb. cbn [flat_map normalize] in Hb. rewrite app_nil_r in Hb.
+            eapply decl_interfaces_iface. exact Hb. }
+          rewrite no_longer_provides_exact_lemma in Hx by assumption.
+          rewrite !filter_In, !negb_true_iff in Hx. destruct Hx as [[_ Hx] _].
+          assert (is_or_extends g b i = true) by (apply (is_or_extends_iff g ifs WF); right; assumption).
+          congruence.
+      + intros [?|H]; [tauto|]. right. right. exists c. split; [|assumption].
+        unfold directly_provides. apply in_app_iff. right. left. reflexivity.
+  Qed.
+
+  Lemma dstep_prefix s o i : i < length s -> nth_error (dstep g ifs s o) i = nth_error s i.
+  Proof. intros H. destruct o; cbn [dstep]; try reflexivity; apply nth_error_app1; assumption. Qed.
+
+  Lemma dstep_length s o : length s <= length (dstep g ifs s o).
+  Proof. destruct o; cbn [dstep]; rewrite ?app_length; lia. Qed.
+
+  Lemma operands_unchanged_lemma ops : forall s i, i < length s ->
+    nth_error (fold_left (dstep g ifs) ops s) i = nth_error s i.
+  Proof.
+    induction ops as [|o ops IH]; intros s i H; cbn [fold_left]; [reflexivity|].
+    rewrite IH; [apply dstep_prefix; assumption|]. pose proof (dstep_length s o). lia.
+  Qed.
+End Algebra.
+
+(* ------------------------------------------------------------------ Part G: extras *)
+Lemma dedupe_acc_as_filter s l : dedupe_acc s l = filter (fun x => negb (mem x s)) (dedupe l).
+Proof.
+  rewrite <- (dedupe_acc_filter (dedupe l) s (dedupe_NoDup l)).
+  unfold dedupe. rewrite dedupe_acc_idem, app_nil_r. reflexivity.
+Qed.
+
+Lemma dedupe_cons x l : dedupe (x :: l) = x :: filter (fun y => negb (Nat.eqb y x)) (dedupe l).
+Proof.
+  unfold dedupe at 1. cbn [dedupe_acc mem]. f_equal. rewrite dedupe_acc_as_filter.
+  apply filter_ext. intros y. cbn. rewrite orb_false_r. reflexivity.
+Qed.
+
+Section Extras.
+  Variable g : graph.
+  Variable ifs : list node.
+  Hypothesis WF : wf g ifs = true.
+
+  Lemma flattened_nonempty_lemma d :
+    (exists i, In i (iter g ifs d) /\ reach g i root) ->
+    forall y, In y (flattened g ifs d) <->
+              is_iface ifs y = true /\ exists i, In i (iter g ifs d) /\ reach g i y.
+  Proof.
+    intros [i0 [H0 R0]] y. rewrite (flattened_members_lemma g ifs WF). split.
+    - intros [Hy [->|H]]; split; try assumption. exists i0. tauto.
+    - intros [Hy H]. tauto.
+  Qed.
+
+  Lemma radd_lemma x a : is_iface ifs x = true ->
+    iter g ifs (radd g ifs x a) =
+    if mem x (iter g ifs a) then iter g ifs a
+    else if existsb (fun y => extends_strict g x y) (iter g ifs a) then x :: iter g ifs a
+         else iter g ifs a ++ [x].
+  Proof.
+    intros Hx. unfold radd. destruct (add_shape g ifs a [x]) as [_ [E _]]. rewrite E. clear E.
+    assert (Ei : iter g ifs [x] = [x]).
+    { apply iter_of_ifaces; [constructor; [intros []|constructor]|]. intros i [<-|[]]. assumption. }
+    unfold new_of. rewrite Ei. cbn [filter].
+    destruct (mem x (iter g ifs a)); cbn [negb].
+    - cbn. rewrite app_nil_r. reflexivity.
+    - cbn [place]. destruct (existsb (fun y => extends_strict g x y) (iter g ifs a)); cbn.
+      + rewrite app_nil_r. reflexivity.
+      + reflexivity.
+  Qed.
+End Extras.
